@@ -166,7 +166,7 @@ func main() {
 		}
 		// fresh obligation list per property, shared program
 		c = &Ctx{Mod: c0.Mod, GuardSpecs: c0.GuardSpecs, RepoDir: c0.RepoDir, Pkgs: c0.Pkgs, byPath: c0.byPath, Prog: c0.Prog, Fset: c0.Fset, SrcFns: c0.SrcFns,
-			ruleDocs: map[string]string{}, ruleMin: map[string]int{}, idx: c0.idx, lockA: c0.lockA, vtaCallees: c0.vtaCallees, vtaStats: c0.vtaStats}
+			ruleDocs: map[string]string{}, ruleMin: map[string]int{}, idx: c0.idx, lockA: c0.lockA, vtaCallees: c0.vtaCallees, vtaStats: c0.vtaStats, vtaReach: c0.vtaReach}
 		if c.lockA != nil {
 			c.lockA.c = c
 		}
@@ -202,6 +202,24 @@ func main() {
 				c.add(&Obligation{Rule: r, Func: "-", Construct: "vacuity guard", Status: Undecided,
 					Detail: fmt.Sprintf("rule matched %d instances, fewer than the %d confirmed by reading: the rule no longer sees the code it was written for", count[r], c.ruleMin[r])})
 			}
+		}
+		if c.vtaReach != nil {
+			dead := map[string]bool{}
+			for _, o := range c.Obls {
+				name := o.Func
+				if i := strings.Index(name, "$"); i > 0 {
+					name = name[:i]
+				}
+				if strings.Contains(name, "@/") && !c.vtaReach[name] && !c.vtaReach[o.Func] {
+					dead[name] = true
+				}
+			}
+			var ds []string
+			for d := range dead {
+				ds = append(ds, d)
+			}
+			sort.Strings(ds)
+			c.note("obligations in functions NOT reachable from cmd/galaxy or cmd/galaxy-ipam main in the VTA call graph (still checked; listed so that they are not mistaken for live coverage): %v", ds)
 		}
 		known, kerr := loadKnown()
 		if kerr != nil {
